@@ -135,6 +135,28 @@ u.extract(T, 'impl Ty::fn get_max_int_size', wrap=('impl Ty {', '}'), contract='
         }
 ''')])
 
+def find_witness(unit, ob, repo, scratch):
+    """Concretiser (DESIGN.md 2.6): look for an input on which the real compiler, built from
+    the tree under check, disagrees with the big-integer oracle of the property."""
+    import os
+    from tools import witness_numeric
+    if ob['function'] not in ('cast_num', 'cast_ty_to_cranelift'):
+        return None
+    if not os.path.isdir(os.path.join(repo, 'target')):
+        return None     # scratch copies without build output: do not spend minutes building
+    w = witness_numeric.find_cast_witness(repo, scratch)
+    if not w or w.get('kind') != 'cast':
+        return None
+    rdir = os.environ.get('VERIF_REPLAY_DIR') or os.path.join(os.path.dirname(os.path.dirname(os.path.dirname(os.path.abspath(__file__)))), 'replays')
+    os.makedirs(rdir, exist_ok=True)
+    prog = os.path.join(rdir, 'witness_cast_%s_%s.capy' % (w['frm'], w['to']))
+    with open(prog, 'w') as f:
+        f.write(w['program'])
+    w['program_file'] = prog
+    w['cmd'] = '%s/target/debug/capy run %s --mod-dir %s 2>&1 | tail -4   # prints %d, should print %d' % (repo, prog, repo, w['got'], w['expected'])
+    return w
+
+
 # which property each function under contract carries (a failure is reported under it)
 u.fn_props = {
     'bit_width': ['C08'], 'into_number_type': ['C08'], 'cast_num': ['C08'], 'cast_ty_to_cranelift': ['C08'],
